@@ -3,6 +3,7 @@
    load-allowed options, option defaults, re-supply list and shift / reduce tags are regenerated from the lark
    source (Gen/SerializeFields.v). *)
 From Coq Require Import ZArith List Bool String Ascii.
+From LV Require Import Ser.NameRes Ser.NameRes_proofs Gen.StandaloneUnits Ser.NameResInstance Ser.NameResInstance_proofs.
 From LV Require Import Ser.Value Gen.SerializeFields Ser.Serialize Ser.Relevant Ser.Serialize_proofs
   Ser.SerializeDec Ser.SerializeDec_proofs Ser.StandaloneModel Gen.Standalone Ser.Standalone_proofs.
 Import ListNotations.
@@ -163,6 +164,43 @@ Theorem C11_standalone_ordered_spec pre d post x :
   sa_program = pre ++ d :: post -> In x (s_eager d) -> In x sa_builtins \/ In x (provided pre).
 Proof. intros E. exact (ordered_program_spec sa_program sa_builtins C11_standalone_ordered pre d post E x). Qed.
 Print Assumptions C11_standalone_ordered_spec.
+
+(* ---- stand-alone clause, name resolution (round 12).  The generated module as a list of statements cut into code units
+   (Gen/StandaloneUnits.v: per unit the global names it loads, in which position, attribute names it uses ...), executed
+   by the small-step machine of Ser/NameRes.v: statements bind names in order, a unit's global names are looked up when it
+   runs, control flow inside a unit is "anything, any number of times"; the last statement is the client, which may call
+   Lark_StandAlone, use every public name of lark's __all__ and every public attribute except the unsupported ones. *)
+(* the decidable check implies that no run of the machine raises NameError, for any program and any certificates *)
+Theorem C11_standalone_name_resolution_sound P Bi flags data NR ancT descT pc :
+  run_check_with P Bi flags data NR ancT descT pc [] [] [] P = true ->
+  forall s, steps P Bi flags data NR ancT descT (initial P) s -> forall u n, s <> NameErr u n.
+Proof. exact (no_name_error P Bi flags data NR ancT descT pc). Qed.
+Print Assumptions C11_standalone_name_resolution_sound.
+(* the regenerated program passes the check (vm_compute in Ser/NameResInstance_proofs.v): importing the generated module
+   and then doing anything the client statement allows never looks up an unbound global name.  No name is tolerated
+   any more; what is declared instead: create_lalr_parser never runs (sa_not_run), five library methods are not part
+   of the stand-alone API (sa_unsupported_attrs), DATA has no 'grammar' key (sa_data) *)
+Theorem C11_standalone_no_name_error s : sa_steps (initial sa_full) s -> forall u n, s <> NameErr u n.
+Proof. exact (sa_no_name_error s). Qed.
+Print Assumptions C11_standalone_no_name_error.
+(* whatever the client does, only the units of sa_reached run: the harness checks every function the real generated
+   module calls in its runs against this list, and that none of the unreached ones (Lark.__init__, the serialiser ...) runs *)
+Theorem C11_standalone_client_runs_reached b F K todo stack :
+  sa_steps (initial sa_full) (Run b F K todo stack (Some sa_client)) -> forall k, In k stack -> In k sa_reached.
+Proof. exact (sa_client_runs_reached b F K todo stack). Qed.
+Print Assumptions C11_standalone_client_runs_reached.
+(* the hypothesis "DATA has no 'grammar' key" is necessary: with the DATA that gen_standalone embedded for an instance
+   built with cache_grammar=True (before repair F53) the machine has a run to NameError - replayed on the code *)
+Theorem C11_standalone_cache_grammar_refuted :
+  has_data_grammar_load = true ->
+  steps sa_full sau_builtins sau_flags sa_data_cg sa_not_run sa_anc sa_desc (initial sa_full) (NameErr "Lark._load" "Grammar").
+Proof. exact sa_cache_grammar_name_error. Qed.
+Print Assumptions C11_standalone_cache_grammar_refuted.
+Example C11_standalone_units_example :
+  (has_data_grammar_load && mem "Lark._load" sa_reached && mem "ParserState.feed_token" sa_reached &&
+   mem "Lark.__init__" sa_unreached && mem "Serialize.serialize" sa_unreached && keys_unique sa_full) = true.
+Proof. vm_compute. reflexivity. Qed.
+Print Assumptions C11_standalone_units_example.
 
 (* regression for the defect this development found (flags came back as a list; repaired by Pattern._deserialize):
    without re-freezing, the flag test of lexer._create_unless changes its answer; with it, it never does *)
